@@ -48,19 +48,28 @@ def send_msg(sock, msg, comment=None):
         raise ConnectionClosedError() from e
 
 
+def _recv_exactly(sock, size):
+    # recv can return less than requested (TCP is free to split the stream anywhere)
+    # and returns an empty chunk once the peer has closed the connection
+    chunks = []
+    while size:
+        chunk = sock.recv(size)
+        if not chunk:
+            raise ConnectionClosedError()
+        size -= len(chunk)
+        chunks.append(chunk)
+    return b''.join(chunks)
+
+
 def recv_msg(sock, state_overwrites=None, comment=None):
     try:
-        data_len = struct.unpack('!I', sock.recv(4))[0]
+        data_len = struct.unpack('!I', _recv_exactly(sock, 4))[0]
     except (BrokenPipeError, struct.error, ConnectionResetError, ConnectionAbortedError, OSError) as e:
         raise ConnectionClosedError() from e
 
     logger.abusive('Receiving a message: {} ({})', data_len, comment)
-    data = bytes()
     try:
-        while data_len:
-            chunk = sock.recv(data_len)
-            data_len -= len(chunk)
-            data += chunk
+        data = _recv_exactly(sock, data_len)
     except (ConnectionResetError) as e:
         raise ConnectionClosedError() from e
     logger.abusive('Message received ({}), deserializing...', comment)
